@@ -24,7 +24,7 @@ class Spec:
     ifcreate: Tuple[str, ...] = ()      # watched paths: ifchange when present, ifcreate when absent
     ifcreate_raw: Tuple[str, ...] = ()  # unconditional redo-ifcreate (an error when the path exists)
     fail: Optional[str] = None          # flag source: script exits 7 when it contains "1"
-    out: str = "stdout"                 # stdout | file ($3)
+    out: str = "stdout"                 # stdout | file ($3) | append (two appends to $3: one before the dependencies, one after)
     proj: bool = False                  # map 1->0 in consumed content
     split: bool = False                 # one redo-ifchange per dependency instead of one call
     tag: str = ""                       # distinguishes .do variants with otherwise equal specs
@@ -71,6 +71,17 @@ def script_text(spec: Spec, variant: int, dofile: str, gates: bool = False) -> s
     L = []
     L.append(f"# rv-generated dofile={dofile} variant={variant} tag={spec.tag}")
     L.append('echo "B $1 $REDO_RUNID" >> "$RV_TRACE"')
+    # interrupted builds (E1 op "kbuild"): when RV_KILL names this target and a position, the script SIGKILLs its whole
+    # process group -- the redo processes above it included -- at that position: 0 = start, i = after the i-th
+    # dependency group (Model.script_deps order; the last one is "just before the output is written"), e = after the
+    # output (and redo-stamp) but before the script exits.  Inert when RV_KILL is unset.
+    L.append('rv_t="$1"; rvk() { if [ "${RV_KILL:-}" = "$rv_t:$1" ]; then kill -KILL 0; sleep 30; fi; }')
+    L.append('rvk 0')
+    g = [0]
+
+    def kp():
+        g[0] += 1
+        L.append('rvk %d' % g[0])
     if gates:
         L.append('trap \'vgate n "end $1"\' EXIT')
         L.append('vgate n "begin $1"')
@@ -93,6 +104,9 @@ def script_text(spec: Spec, variant: int, dofile: str, gates: bool = False) -> s
         L.append('printf "L $1 3 %s\\n" "$(head -c 20000 /dev/zero | tr \'\\0\' x)" >&2')
         if spec.noise >= 2:
             L.append('echo "@@REDO:do:1:1.0000@@ L-$1-fake" >&2')
+    if spec.out == "append":
+        # legitimate because redo promises that $3 does not exist when the script starts
+        L.append('printf "%s(" "$1" >> "$3"')
     deps = [d.replace("%", "$2") for d in spec.deps]
 
     def ifchange(names):
@@ -107,13 +121,16 @@ def script_text(spec: Spec, variant: int, dofile: str, gates: bool = False) -> s
         if spec.split:
             for d in deps:
                 L.append(ifchange([d]))
+                kp()
         else:
             L.append(ifchange(deps))
+            kp()
         for d in deps:
             L.append(f'c="$c$(cat "{d}")"')
     if spec.sel:
         selsrc = spec.sel[0].replace("%", "$2")
         L.append(ifchange([selsrc]))
+        kp()
         L.append(f'sv=$(cat "{selsrc}")')
         L.append('c="$c[$sv]"')
         L.append('case "$sv" in')
@@ -127,28 +144,39 @@ def script_text(spec: Spec, variant: int, dofile: str, gates: bool = False) -> s
             body.append(":")
             L.append(f"  {v}) " + "; ".join(body) + " ;;")
         L.append("esac")
+        kp()
     for w in spec.ifcreate:
         w = w.replace("%", "$2")
         L.append(f'if [ -e "{w}" ]; then {ifchange([w])}; c="$c$(cat "{w}")"; '
                  f'else redo-ifcreate "{w}" || exit 9; c="$c~"; fi')
+        kp()
     for w in spec.ifcreate_raw:
         w = w.replace("%", "$2")
         L.append(f'redo-ifcreate "{w}" || {{ rc=$?; echo "R $1 $rc" >> "$RV_TRACE"; exit $rc; }}')
         L.append('c="$c~"')
+        kp()
     for i, (cmd, names) in enumerate(spec.seq):
         q = " ".join('"%s"' % n.replace("%", "$2") for n in names)
         tool = "redo-ifchange" if cmd == "ifchange" else "redo"
         L.append(f'rc=0; {tool} {q} || rc=$?; echo "Q $1 {i} $rc" >> "$RV_TRACE"')
+    if spec.seq:
+        kp()
     if spec.fail:
         fl = spec.fail.replace("%", "$2")
         if not spec.fail_undeclared:
             L.append(ifchange([fl]))
+            kp()
         we = 'vgate n "work-end $1"; ' if gates else ""
         L.append(f'if [ "$(cat "{fl}")" = 1 ]; then echo "F $1" >> "$RV_TRACE"; {we}exit 7; fi')
+        kp()
     if spec.proj:
         L.append("c=$(printf %s \"$c\" | tr 1 0)")
     if spec.out == "file":
         L.append('printf "%s(%s)\\n" "$1" "$c" > "$3"')
+        if spec.kind == "csum":
+            L.append('redo-stamp < "$3"')
+    elif spec.out == "append":
+        L.append('printf "%s)\\n" "$c" >> "$3"')
         if spec.kind == "csum":
             L.append('redo-stamp < "$3"')
     else:
@@ -158,6 +186,7 @@ def script_text(spec: Spec, variant: int, dofile: str, gates: bool = False) -> s
             L.append('printf "%s(%s)\\n" "$1" "$c" | redo-stamp')
         else:
             L.append('printf "%s(%s)\\n" "$1" "$c"')
+    L.append('rvk e')
     if spec.noise:
         L.append('echo "L $1 4 after dependencies" >&2')
     if gates:
@@ -266,6 +295,10 @@ def curated() -> Dict[str, World]:
         {"top.do": [S(deps=["m"])], "m.do": [S(deps=["s"]), S(deps=["u"], tag="v1"), S(deps=["s", "u"], tag="v2", out="file")]},
         ["top", "m"], ["top", "m"],
         prefixes=[[["ifchange", ["top"]], ["dovar", "m.do", 1], ["ifchange", ["top"]]]])
+    W["chain-append"] = World(   # scripts that build $3 by appending, partly before their dependencies are requested
+        "chain-append", {"s": V3},
+        {"top.do": [S(deps=["mid"], out="append")], "mid.do": [S(deps=["s"], out="append")]},
+        ["top", "mid"], ["top", "mid"])
     W["fail"] = World(
         "fail", {"s": ["0", "1"], "flag": ["0", "1"]},
         {"top.do": [S(deps=["m", "h"])], "m.do": [S(deps=["s"], fail="flag")], "h.do": [S(deps=["s"], out="file")]},
